@@ -45,9 +45,30 @@ mod proofs {
     instantiate_noaad!(V = V);
     instantiate_paserk!(V = V, PIE_OVER = 64, SECRET_LEN = 64, PW_PREFIX = 56, PW_OVER = 88, PW_PARAMS_OFF = 16, PW_PARAMS_LEN = 16, ARM = arm, DRAWS = draws);
     instantiate_pke!(V = V, PKE_LEN = 96, RCPT = rcpt(), ARM = arm, DRAWS = draws);
+    instantiate_keys!(V = V, PUB_LEN = 32, SEC_LEN = 64, PUB_IN_SECRET = Some(32), PUB_LENS = &[32], ID_DOM = vmodel::D_BLAKE2, ID_PREFIX = &[33, 0], PASERK = b"k2");
 
 
     h!(public_rng_fail_closed_, public_rng_fail_closed::<V>(arm, draws));
+    /// Argon2id parameter block (mem bytes u64 BE, time u32 BE, parallelism u32 BE): valid iff mem is
+    /// a multiple of 1024, mem/1024 fits u32 and is >= 8 and >= 8*para, time >= 1, 1 <= para <= 0xFFFFFF
+    h!(c05_pbkw_param_domain, {
+        use paseto_core::paserk::PwWrapVersion;
+        let pb: [u8; 16] = kani::any();
+        let mem = u64::from_be_bytes([pb[0], pb[1], pb[2], pb[3], pb[4], pb[5], pb[6], pb[7]]);
+        let time = u32::from_be_bytes([pb[8], pb[9], pb[10], pb[11]]);
+        let para = u32::from_be_bytes([pb[12], pb[13], pb[14], pb[15]]);
+        let kib = mem >> 10;
+        let valid = mem & 1023 == 0 && kib <= u32::MAX as u64 && kib >= 8 && para >= 1 && para <= 0xFF_FFFF && kib >= 8 * para as u64 && time >= 1;
+        let p = pw_params_from_bytes::<V, 56>(16, &pb).unwrap();
+        unsafe {
+            argon2::ABORT_AT_KDF = true;
+            argon2::EXPECT_VALID = valid;
+        }
+        fn calls() -> usize {
+            unsafe { argon2::CALLS }
+        }
+        pw_param_domain::<V>(".local-pw.", p, valid, calls)
+    });
     h!(pw_rng_fail_closed_at0, pw_rng_fail_closed::<V, 0>(".local-pw.", arm, draws));
     h!(pw_rng_fail_closed_at1, pw_rng_fail_closed::<V, 1>(".local-pw.", arm, draws));
     h!(pke_rng_fail_closed_, {
